@@ -64,13 +64,13 @@ theorem ends_nl_all (cfg : RCfg) :
       · exact nl_snoc _
   case case8 => exact nl_append_right _ (by decide)
   case case9 h =>
-    rename_i st level cs sx r
-    have hh : ((renderInlines cfg true [] cs).1.getLast? == some '\\') = true := h
+    rename_i st level cs sx r0 r
+    have hh : ((unbreak (renderInlines cfg true [] cs).1).getLast? == some '\\') = true := h
     simp only [hh, if_true]
     right; simp [List.getLast?_append]
   case case10 h =>
-    rename_i st level cs sx r
-    have hh : ((renderInlines cfg true [] cs).1.getLast? == some '\\') = false := by simpa using h
+    rename_i st level cs sx r0 r
+    have hh : ((unbreak (renderInlines cfg true [] cs).1).getLast? == some '\\') = false := by simpa using h
     simp only [hh, Bool.false_eq_true, if_false]
     right
     simp only [List.getLast?_append]
